@@ -50,6 +50,8 @@ def apply_outcome(value, o, tol, x=0.0):
         return 0.0
     if o == 'warn':
         return -math.inf  # np.log(0.0) -> RuntimeWarning, -inf
+    if o == 'uwarn':
+        return value      # warnings.warn(..., UserWarning): a warning of another category; the statement re-stores the value it found
     raise ValueError(o)
 
 
@@ -82,6 +84,8 @@ def make_model_class():
                 raise SolutionError('raised by the hook itself')     # an exception of the solver's own class is still *wrapped and chained*
             if kind == 'warn':
                 np.log(self._X[t] * 0.0)
+            if kind == 'uwarn':
+                warnings.warn('scripted warning of another category', UserWarning)
 
         def solve_t_before(self, t, **kw):
             self.__dict__['v_log'].append(('before', t, kw.get('iteration'), dict(kw)))
@@ -111,7 +115,10 @@ def make_model_class():
                 if o == 'excse':
                     from fsic.exceptions import SolutionError
                     raise SolutionError('raised inside the pass')
-                if o == 'warn':
+                if o == 'uwarn':
+                    warnings.warn('scripted warning of another category', UserWarning)
+                    val = float(arr[t])
+                elif o == 'warn':
                     val = np.log(self._X[t] * 0.0)   # RuntimeWarning: divide by zero -> -inf
                 else:
                     val = apply_outcome(float(arr[t]), o, tol)
@@ -161,8 +168,9 @@ def ref_solve_t(script, start, check, *, min_iter, max_iter, tol, failures, erro
         return done(kind='exc', value='SolutionError', status='unchanged', iterations='unchanged', nothing_changed=True)
     out['befores'] = 1
     strict = errors == 'raise' and cfe
-    if before_fault in EXC_CAUSE or (before_fault == 'warn' and strict):
-        return done(kind='exc', value='SolutionError', cause=EXC_CAUSE.get(before_fault, 'RuntimeWarning'), status=None, iterations=None)
+    WARN_CAUSE = {'warn': 'RuntimeWarning', 'uwarn': 'UserWarning'}       # any warning category counts, not just NumPy's
+    if before_fault in EXC_CAUSE or (before_fault in WARN_CAUSE and strict):
+        return done(kind='exc', value='SolutionError', cause=EXC_CAUSE.get(before_fault) or WARN_CAUSE[before_fault], status=None, iterations=None)
     k = 0
     for k in range(1, max_iter + 1):
         pair = script[k - 1] if k - 1 < len(script) else ('same', 'same')
@@ -173,9 +181,9 @@ def ref_solve_t(script, start, check, *, min_iter, max_iter, tol, failures, erro
             if o in EXC_CAUSE:
                 return done(kind='exc', value='SolutionError', cause=EXC_CAUSE[o], status='E' if errors == 'raise' else None,
                             iterations=k if errors == 'raise' else None)
-            if o == 'warn' and strict:
+            if o in WARN_CAUSE and strict:
                 # the warning-producing statement does not store its result
-                return done(kind='exc', value='SolutionError', cause='RuntimeWarning', status='E', iterations=k)
+                return done(kind='exc', value='SolutionError', cause=WARN_CAUSE[o], status='E', iterations=k)
             stored[name] = apply_outcome(stored[name], o, scale)
         new = [stored[c] for c in check]
         if nonfin(prev):
@@ -197,8 +205,8 @@ def ref_solve_t(script, start, check, *, min_iter, max_iter, tol, failures, erro
         if k >= min_iter and all(abs(a - b) < tol for a, b in zip(new, prev)):
             out['afters'] = 1
             out['after_iteration'] = k
-            if after_fault in EXC_CAUSE or (after_fault == 'warn' and strict):
-                return done(kind='exc', value='SolutionError', cause=EXC_CAUSE.get(after_fault, 'RuntimeWarning'), status=None, iterations=None)
+            if after_fault in EXC_CAUSE or (after_fault in WARN_CAUSE and strict):
+                return done(kind='exc', value='SolutionError', cause=EXC_CAUSE.get(after_fault) or WARN_CAUSE[after_fault], status=None, iterations=None)
             return done(kind='ret', value=True, status='.', iterations=k)
     if failures == 'raise':
         return done(kind='exc', value='NonConvergenceError', cause=None, status='F', iterations=max_iter)
